@@ -159,8 +159,6 @@ def rows_0 : List Row := [
   ⟨"127", 3617329, cls_1, dv_1⟩,
   ⟨"$EQ", 5326116, cls_0, dv_0⟩,
   ⟨"$[]", 6118180, cls_0, dv_0⟩,
-  ⟨"$o_", 6254372, cls_0, dv_0⟩,
-  ⟨"$ta", 6386724, cls_0, dv_0⟩,
   ⟨"$ne", 6647332, cls_2, dv_2⟩,
   ⟨"$in", 7235876, cls_3, dv_3⟩,
   ⟨"$ln", 7236644, cls_4, dv_4⟩,
@@ -172,10 +170,10 @@ def rows_0 : List Row := [
   ⟨"$gt", 7628580, cls_3, dv_3⟩,
   ⟨"$lt", 7629860, cls_3, dv_3⟩,
   ⟨"int", 7630441, cls_6, dv_6⟩,
-  ⟨"$eq ", 544302372, cls_0, dv_0⟩]
+  ⟨"$eq ", 544302372, cls_0, dv_0⟩,
+  ⟨"$NqW", 1467043364, cls_0, dv_0⟩,
+  ⟨"$inc", 1668180260, cls_7, dv_7⟩]
 def rows_1 : List Row := [
-  ⟨"$cnS", 1399743268, cls_0, dv_0⟩,
-  ⟨"$inc", 1668180260, cls_7, dv_7⟩,
   ⟨"$add", 1684300068, cls_4, dv_4⟩,
   ⟨"$and", 1684955428, cls_5, dv_5⟩,
   ⟨"$mod", 1685024036, cls_4, dv_4⟩,
@@ -213,10 +211,11 @@ def rows_1 : List Row := [
   ⟨"$bit", 1953063460, cls_0, dv_0⟩,
   ⟨"$not", 1953459748, cls_17, dv_16⟩,
   ⟨"$out", 1953853220, cls_18, dv_17⟩,
-  ⟨"$pow", 2003791908, cls_4, dv_4⟩]
-def rows_2 : List Row := [
+  ⟨"$pow", 2003791908, cls_4, dv_4⟩,
   ⟨"$max", 2019650852, cls_11, dv_11⟩,
-  ⟨"$box", 2020565540, cls_0, dv_0⟩,
+  ⟨"$box", 2020565540, cls_0, dv_0⟩]
+def rows_2 : List Row := [
+  ⟨"$QXDC", 288909447460, cls_0, dv_0⟩,
   ⟨"$meta", 418564631844, cls_19, dv_13⟩,
   ⟨"$rand", 431348609572, cls_0, dv_0⟩,
   ⟨"$cond", 431349523236, cls_4, dv_4⟩,
@@ -254,9 +253,9 @@ def rows_2 : List Row := [
   ⟨"regex", 517097350514, cls_10, dv_10⟩,
   ⟨"array", 521325933153, cls_6, dv_6⟩,
   ⟨"$log10", 52988746886180, cls_4, dv_4⟩,
-  ⟨"$atan2", 55449662808356, cls_0, dv_0⟩]
+  ⟨"$atan2", 55449662808356, cls_0, dv_0⟩,
+  ⟨"$trunc", 109326067987492, cls_4, dv_4⟩]
 def rows_3 : List Row := [
-  ⟨"$trunc", 109326067987492, cls_4, dv_4⟩,
   ⟨"$round", 110425579418148, cls_0, dv_0⟩,
   ⟨"$slice", 111477644882724, cls_28, dv_23⟩,
   ⟨"$range", 111494907916836, cls_13, dv_13⟩,
@@ -272,6 +271,7 @@ def rows_3 : List Row := [
   ⟨"$asinh", 114823424860452, cls_0, dv_0⟩,
   ⟨"$acosh", 114844999311652, cls_0, dv_0⟩,
   ⟨"$month", 114849278291236, cls_4, dv_4⟩,
+  ⟨"$AQnMj", 116880795844900, cls_0, dv_0⟩,
   ⟨"symbol", 119225648511347, cls_10, dv_10⟩,
   ⟨"$ltrim", 120299659226148, cls_0, dv_0⟩,
   ⟨"$rtrim", 120299659227684, cls_0, dv_0⟩,
@@ -292,12 +292,11 @@ def rows_3 : List Row := [
   ⟨"minKey", 133475964184941, cls_10, dv_10⟩,
   ⟨"maxKey", 133475964838253, cls_10, dv_10⟩,
   ⟨"$query", 133532235428132, cls_0, dv_0⟩,
-  ⟨"$vgYLdV", 24317127077361188, cls_0, dv_0⟩,
   ⟨"binData", 27431033849669986, cls_6, dv_6⟩,
   ⟨"$unwind", 28268896925414692, cls_18, dv_17⟩,
-  ⟨"$second", 28268922359083812, cls_4, dv_4⟩]
+  ⟨"$second", 28268922359083812, cls_4, dv_4⟩,
+  ⟨"$reduce", 28538328494469668, cls_13, dv_13⟩]
 def rows_4 : List Row := [
-  ⟨"$reduce", 28538328494469668, cls_13, dv_13⟩,
   ⟨"$divide", 28539376768738340, cls_4, dv_4⟩,
   ⟨"$sample", 28548202775016228, cls_18, dv_17⟩,
   ⟨"$rename", 28549237879173668, cls_23, dv_7⟩,
@@ -336,9 +335,9 @@ def rows_4 : List Row := [
   ⟨"$project", 8386658438904705060, cls_18, dv_17⟩,
   ⟨"$Comment", 8389754676499661604, cls_0, dv_0⟩,
   ⟨"$comment", 8389754676499669796, cls_31, dv_14⟩,
-  ⟨"$convert", 8390880615077995300, cls_13, dv_13⟩]
+  ⟨"$convert", 8390880615077995300, cls_13, dv_13⟩,
+  ⟨"$isArray", 8746397786380134692, cls_4, dv_4⟩]
 def rows_5 : List Row := [
-  ⟨"$isArray", 8746397786380134692, cls_4, dv_4⟩,
   ⟨"$orderby", 8746679206109409060, cls_0, dv_0⟩,
   ⟨"$strLenCP", 1480598458323755627300, cls_13, dv_13⟩,
   ⟨"$substrCP", 1480599600883572241188, cls_13, dv_13⟩,
@@ -363,12 +362,12 @@ def rows_5 : List Row := [
   ⟨"$snapshot", 2147850105812604056356, cls_0, dv_0⟩,
   ⟨"$multiply", 2239869894221100313892, cls_4, dv_4⟩,
   ⟨"$geometry", 2240303361257172723492, cls_0, dv_0⟩,
+  ⟨"$ZcCd_wnhI", 346659174568900526561828, cls_0, dv_0⟩,
   ⟨"$indexOfCP", 379032622726002057832740, cls_13, dv_13⟩,
   ⟨"$maxTimeMS", 393384125985437998214436, cls_0, dv_0⟩,
-  ⟨"$oLWFjgSwW", 413047056443508664332068, cls_0, dv_0⟩,
+  ⟨"$CgTQkFNIV", 407475770157750666347300, cls_0, dv_0⟩,
   ⟨"$dateTrunc", 469551886571647430386724, cls_0, dv_0⟩,
   ⟨"$regexFind", 474273376018071845958180, cls_0, dv_0⟩,
-  ⟨"$IvlBGdiSf", 483220055284043971184932, cls_0, dv_0⟩,
   ⟨"$elemMatch", 492960727950853736785188, cls_20, dv_9⟩,
   ⟨"$unionWith", 493273527188115155744036, cls_0, dv_0⟩,
   ⟨"$dayOfWeek", 507163637236309032002596, cls_4, dv_4⟩,
@@ -376,6 +375,7 @@ def rows_5 : List Row := [
   ⟨"$toDecimal", 511812798266980789351460, cls_29, dv_13⟩,
   ⟨"$geoWithin", 521404748000101971355428, cls_24, dv_20⟩,
   ⟨"$currentOp", 530370728617921377297188, cls_0, dv_0⟩,
+  ⟨"$xAIkNfDZp", 530570181761099024660516, cls_0, dv_0⟩,
   ⟨"$stdDevPop", 530958432606496727790372, cls_13, dv_13⟩,
   ⟨"$dayOfYear", 540146416203051663713316, cls_4, dv_4⟩]
 def rows_6 : List Row := [
